@@ -124,7 +124,7 @@ func init() {
 		"faults-enumerated", "scenarios-enumerated-completely")
 	props["C18"].level = "fault_enumeration"
 	props["C18"].quickS, props["C18"].thoroughS = 30, 600
-	props["C19"] = simProp("whole-engine runs in which 1..3 application tasks issue Validate, CountConnections, Dup, DupListener (right and wrong address), Register (address: the framework dials; connection: enroll; neither), Stop with live, already-cancelled and expiring contexts, at arbitrary moments: on the zero Engine value before boot, while the engine is being assembled, running, during a shutdown started elsewhere (any source, any step) and after Run returned; reference model {never-started, booting, running, stopping, stopped}: exact answers (errors by identity, -1 counts) outside the stopping window, inside it a call must return and must not succeed with a meaningless result; Stop returns nil only after OnShutdown, every OnClose and the release of listener/epoll/eventfd descriptors, returns ctx.Err() when the context ends first while the shutdown still completes (C06 monitor); every accepted Register/Enroll delivers exactly one result, a connection that has had its OnOpen or an error; in a quarter of the runs with Register/Enroll calls the duplication (fcntl F_DUPFD -> EMFILE) or the poller registration (epoll_ctl ADD -> ENOMEM) of one of them fails at a seeded call index; a Stop that returned the error of an ended context must still be followed by a complete shutdown; descriptors handed out by Dup stay open; non-trivial = at least one control call;"+sig,
+	props["C19"] = simProp("whole-engine runs in which 1..3 application tasks issue Validate, CountConnections, Dup, DupListener (right and wrong address), Register (address: the framework dials; connection: enroll; neither), Stop with live, already-cancelled and expiring contexts, at arbitrary moments: on the zero Engine value before boot, while the engine is being assembled, running, during a shutdown started elsewhere (any source, any step) and after Run returned; reference model {never-started, booting, running, stopping, stopped}: exact answers (errors by identity, -1 counts) outside the stopping window, inside it a call must return and must not succeed with a meaningless result; Stop returns nil only after OnShutdown, every OnClose and the release of listener/epoll/eventfd descriptors, returns ctx.Err() when the context ends first while the shutdown still completes (C06 monitor); every accepted Register/Enroll delivers exactly one result, a connection that has had its OnOpen or an error; in a quarter of the runs with Register/Enroll calls the duplication (fcntl F_DUPFD -> EMFILE) or the poller registration (epoll_ctl ADD -> ENOMEM) of one of them fails at a seeded call index; a Stop that returned the error of an ended context must still be followed by a complete shutdown; descriptors handed out by Dup stay open; every sixth plan is an engine whose listeners are all UDP; the EventLoop of a known connection is called without a target (Register(nil address), Enroll(nil), Execute(nil), Schedule): its own refusal errors while the engine runs, the in-shutdown error afterwards; non-trivial = at least one control call;"+sig,
 		"control-calls", "control-calls-in-window", "register-calls", "register-succeeded", "dup-handed-out")
 	props["C14"] = simProp("whole-engine runs with many short-lived connections (3..40, closes in every order, descriptor numbers re-registered immediately, canaries): inside every callback, on the loop's own task, a read-only export of that loop's registry (count, iteration, lookup of every descriptor number the run has used) must equal the harness's set of live connections of that loop; default and gc_opt (compacting matrix) builds; plus the registry driven alone through seeded histories (add/remove first,middle,last/lookup/iterate/full iterate-and-remove drain/re-registration; a few populations beyond one 65536-entry row in the thorough tier) against a plain map; non-trivial = snapshots taken and at least one removal;"+sig,
 		"registry-snapshots", "fd-number-reused")
